@@ -17,6 +17,8 @@ X.ALLOW_REAL_ZERO = True  # values are compared here (either print of a zero is 
 NAMES = {
     "u5": 5, "u0": 0, "u12": 12, "big": 4000000000, "i3": -3, "i1": -1, "r25": 2.5, "r05": 0.5, "rneg": -1.25, "r100": 100.0,
     "s12": "12", "sneg": "-7", "s25": "2.5", "txt": "abc", "empty": "", "bt": True, "bf": False, "nul": None, "strue": "true",
+    # strings that only START with a numeral (a unit, a date, trailing blank, second point): not numbers
+    "px": "12px", "date": "2021-05-01", "pct": "3.5%", "sp": "7 ", "dots": "1.2.3", "ex": "1e", "lead": " 4",
 }
 
 
